@@ -356,21 +356,23 @@ def run(ctx):
     ctx.run("C14.m_to_sp", ms, chunk=500, rule=f"all words of M of length 2..{smax + 1} ({len(ms)})")
     ctx.add_sample("C14.sp_to_m", "3")
     # ---- containment: words x all permutations
+    # (shortest w, longest w, shortest sigma, longest sigma)
     if quick:
-        blocks = [(4, 0, 4)]
-        wit = [(4, 0, 4)]
+        blocks = [(0, 4, 0, 4), (5, 5, 0, 3)]
+        wit = [(0, 4, 0, 4)]
     else:
-        blocks = [(6, 0, 4), (5, 5, 5)]
-        wit = [(5, 0, 4)]
-    for (wl, lo, hi) in blocks:
-        items = [(w, lo, hi) for n in range(wl, -1, -1) for w in P.pinwords(n)]
-        ctx.run("C14.contains", items, chunk=40 if wl <= 4 else 12, timeout_s=600,
-                rule=f"all pin words of length <= {wl} x all permutations of length {lo}..{hi} "
+        blocks = [(0, 6, 0, 4), (0, 5, 5, 5)]
+        wit = [(0, 5, 0, 4)]
+    for (w0, w1, lo, hi) in blocks:
+        items = [(w, lo, hi) for n in range(w1, w0 - 1, -1) for w in P.pinwords(n)]
+        ctx.run("C14.contains", items, chunk=40 if w1 <= 4 else 12, timeout_s=600,
+                rule=f"all pin words of length {w0}..{w1} x all permutations of length {lo}..{hi} "
                      f"(each through all of its pin words), against brute-force containment in the decoded permutation")
-    for (wl, lo, hi) in wit:
-        items = [(w, lo, hi) for n in range(wl, -1, -1) for w in P.pinwords(n)]
-        ctx.run("C14.occurrences", items, chunk=40 if wl <= 4 else 12, timeout_s=600,
-                rule=f"all pin words w of length <= {wl} x all pin words u of length {lo}..{hi}: every listed occurrence is a geometric witness")
+    for (w0, w1, lo, hi) in wit:
+        items = [(w, lo, hi) for n in range(w1, w0 - 1, -1) for w in P.pinwords(n)]
+        ctx.run("C14.occurrences", items, chunk=40 if w1 <= 4 else 12, timeout_s=600,
+                rule=f"all pin words w of length {w0}..{w1} x all pin words u of length {lo}..{hi}: every listed occurrence "
+                     "is a geometric witness; pinword_contains and the _sp variants agree with the listing")
     ctx.add_sample("C14.contains", ("1U", 0, 4), "known finding: '1U' is said to contain '11' (01 in 10)")
     ctx.assumptions += [
         "B layer: bounded; exhaustive up to the stated word / permutation lengths",
